@@ -147,3 +147,18 @@ Proof.
   - destruct (Z.leb_spec (truncd g z) z), (Z.leb_spec (truncd g z + ERA * k) (z + ERA * k)); trivial; lia.
 Qed.
 
+(* ---------- microsecond level (definitions only; the floor theorems are in Base/CalendarFacts.v) ---------- *)
+Definition UD : Z := 86400000000.   (* microseconds per day *)
+Definition UH : Z := 3600000000.    (* microseconds per hour *)
+
+Definition trunc (g : gran) (t : Z) : Z :=
+  match g with
+  | Hour => t / UH * UH
+  | _ => truncd g (t / UD) * UD
+  end.
+
+Definition boundary (g : gran) (t : Z) : Prop :=
+  match g with
+  | Hour => t mod UH = 0
+  | _ => t mod UD = 0 /\ startd g (t / UD) = true
+  end.
